@@ -159,7 +159,7 @@ def doQuery (a : Acc) (q : Json) : R Acc := do
         from? := tok
         toks := toks.push (Json.str (match tok with | some r => uriFor s r | none => ""))
       let o := Json.mkObj [("pages", Json.arr ps), ("tokens", Json.arr toks)]
-      return { a with outM := a.outM.push o, outS := a.outS.push o }
+      return { a with outM := a.outM.push o, outS := a.outS.push o, nt := a.nt + 1 }
   | "changes" =>
     match s.dsid.lookup (← getStr q "ds") with
     | none => let e := Json.mkObj [("err", Json.str "nods")]; return { a with outM := a.outM.push e, outS := a.outS.push e }
@@ -184,7 +184,7 @@ def doQuery (a : Acc) (q : Json) : R Acc := do
         since := tok
         toks := toks.push (jNat tok)
       let o := Json.mkObj [("pages", Json.arr ps), ("tokens", Json.arr toks)]
-      return { a with outM := a.outM.push o, outS := a.outS.push o }
+      return { a with outM := a.outM.push o, outS := a.outS.push o, nt := a.nt + 1 }
   | "entity" =>
     let scope := scopeIds s (← strList (← getObj q "scope"))
     let named := (← strList (← getObj q "scope")).length
